@@ -76,11 +76,27 @@ func PipelineAsSteps(stmts []*gripql.GraphStatement) map[string]string {
 	return out
 }
 
+// pipelineAsAllSteps lists, for each name used in an as_ operation, every step
+// the name is assigned at: a name can be marked more than once in a traversal
+func pipelineAsAllSteps(stmts []*gripql.GraphStatement) map[string][]string {
+	out := map[string][]string{}
+	steps := PipelineSteps(stmts)
+	for i, gs := range stmts {
+		switch stmt := gs.GetStatement().(type) {
+		case *gripql.GraphStatement_As:
+			if !contains(out[stmt.As], steps[i]) {
+				out[stmt.As] = append(out[stmt.As], steps[i])
+			}
+		}
+	}
+	return out
+}
+
 // PipelineStepOutputs identify the required outputs for each step in the traversal
 func PipelineStepOutputs(stmts []*gripql.GraphStatement) map[string][]string {
 
 	steps := PipelineSteps(stmts)
-	asMap := PipelineAsSteps(stmts)
+	asMap := pipelineAsAllSteps(stmts)
 	onLast := true
 	out := map[string][]string{}
 	for i := len(stmts) - 1; i >= 0; i-- {
@@ -91,8 +107,11 @@ func PipelineStepOutputs(stmts []*gripql.GraphStatement) map[string][]string {
 			n := jsonpath.GetNamespace(f)
 			if n == jsonpath.Current {
 				out[steps[i]] = []string{"*"}
-			} else if a, ok := asMap[n]; ok {
-				out[a] = []string{"*"}
+			} else {
+				//a re-used mark name may refer to any of the steps it was taken at
+				for _, a := range asMap[n] {
+					out[a] = []string{"*"}
+				}
 			}
 		}
 		switch gs.GetStatement().(type) {
@@ -103,7 +122,7 @@ func PipelineStepOutputs(stmts []*gripql.GraphStatement) map[string][]string {
 			//whatever follows may read its data
 			sel := gs.GetSelect().Marks
 			for _, s := range sel {
-				if a, ok := asMap[s]; ok {
+				for _, a := range asMap[s] {
 					out[a] = []string{"*"}
 				}
 			}
@@ -116,7 +135,7 @@ func PipelineStepOutputs(stmts []*gripql.GraphStatement) map[string][]string {
 				if n == "__current__" {
 					out[steps[i]] = []string{"*"}
 				}
-				if a, ok := asMap[n]; ok {
+				for _, a := range asMap[n] {
 					out[a] = []string{"*"}
 				}
 			}
